@@ -87,7 +87,7 @@ PROPS = {
     'C05': dict(num=5, sim=[('MON', 1)], quick=400000, thorough=2000000, flavours_quick=[('gcc_new', 14), ('cpp11', 2)], flavours_thorough=['gcc_new', 'c11', 'cpp11'],
                 rule='MON programs with timed / cancellable cv and mu waits, notes fresh / notified / expiring / child of an expiring parent, reader and writer mode; non-trivial = some wait returned ETIMEDOUT or ECANCELED; distinct = distinct (program hash, realized trace hash)'),
     'C06': dict(num=6, sim=[('MON', 1)], quick=400000, thorough=2000000, flavours_thorough=['gcc_new', 'c11', 'cpp11'],
-                rule='MON programs with 2..4 nsync_mu_wait callers over 6 condition classes, one in four built around the MU_ALL_FALSE hint (waiter + writer that makes its condition true and then blocks or unlocks under contention + reader / unlock_without_wakeup release); non-trivial = two conditional waiters were queued together and an unlocker evaluated a condition, or a conditional waiter left the queue by timeout/cancel while another was queued; distinct = distinct (program hash, realized trace hash)'),
+                rule='MON programs with 2..4 nsync_mu_wait callers over 7 condition classes (same function and argument, same function and different argument, arguments equivalent under condition_arg_eq, a different function on an eq-equivalent argument, a different function, no condition), one in four built around the MU_ALL_FALSE hint (waiter + writer that makes its condition true and then blocks or unlocks under contention + reader / unlock_without_wakeup release); non-trivial = two conditional waiters were queued together and an unlocker evaluated a condition, or a conditional waiter left the queue by timeout/cancel while another was queued; distinct = distinct (program hash, realized trace hash)'),
     'C13': dict(num=13, sim=[(f, 1) for f in ('MON', 'REF', 'WAITN', 'MON', 'CTR', 'MON', 'NOTE', 'REF', 'MON', 'WAITN', 'MON', 'REF', 'CTR', 'WAITN', 'NOTE', 'MON')], quick=300000, thorough=2000000, flavours_thorough=['gcc_new', 'cpp11'],
                 rule='REF programs (reference-count pattern: lock; [timed mu_wait | cv_wait | signal]; last=(--refs==0); unlock; if last free) and WAITN/MON/CTR/NOTE programs in which cv signal/broadcast, note notify and zeroing decrements race nsync_wait_n, nsync_counter_wait, nsync_note_wait and cancellable waits whose deadline or other objects can end the wait at any moment; oracle = arena / fiber-stack lifetime tracking; non-trivial = the free happened while another thread was still inside its unlock on the object (REF), a wake-up overlapped a wait on the same object (WAITN), or a wait returned between the first and last step of a wake-up that could see it (MON); distinct = distinct (program hash, realized trace hash)'),
     'C07': dict(num=7, sim=[('ONCE', 1)], quick=300000, thorough=2000000, flavours_thorough=['gcc_new', 'c11', 'cpp11'],
